@@ -297,6 +297,19 @@ const (
 	sigAlias = "C18/listing-after-HashesWithPrefix-matching-packed-object:ExclusiveAccess-loose-object-list-overwritten"
 )
 
+// aliasOpen reports whether the aliasing defect (sigAlias, repaired by a fix:
+// commit) is a confirmed-open finding in this run; only then may a listing
+// failure after a prefix search be attributed to it. Otherwise the mirror's
+// other explanations apply (and an unexplained failure stays unexplained).
+func aliasOpen() bool {
+	for _, k := range strings.Split(os.Getenv("VERIF_KNOWN"), "\x1f") {
+		if k == sigAlias {
+			return true
+		}
+	}
+	return false
+}
+
 // explain returns a known-shape signature when the ExclusiveAccess cache
 // mirror predicts that lookup kind cannot see object i (or pack p), else "".
 func (s *sim) explain(kind string, i int, pack string) string {
@@ -317,7 +330,7 @@ func (s *sim) explain(kind string, i int, pack string) string {
 			return sigLoose
 		}
 	case "iter":
-		if s.corrupt {
+		if s.corrupt && aliasOpen() {
 			return sigAlias
 		}
 		if !s.looseFresh(i) && !s.anyFreshPackWith(i) {
@@ -329,7 +342,7 @@ func (s *sim) explain(kind string, i int, pack string) string {
 			}
 		}
 	case "prefix":
-		if s.corrupt {
+		if s.corrupt && aliasOpen() {
 			return sigAlias
 		}
 		if !s.inClosedPack(i) && s.looseStale(i) {
